@@ -1,1 +1,2 @@
 import ButlerModel.Props.C11
+import ButlerModel.Props.C15
